@@ -61,6 +61,11 @@ func getSubnetsHkdf(sc genericSubnetConfig, seed []byte, weighted bool) ([]*phan
 		})
 
 		// Naive method: get random int, subtract from weights until you are < 0
+		if totWeight <= 0 {
+			// crypto/rand.Int panics for a non-positive bound (all weights zero or absent)
+			return nil, ErrMissingAddrs
+		}
+
 		hkdfReader := hkdf.New(sha256.New, seed, nil, []byte("phantom-select-subnet"))
 		totWeightBig := big.NewInt(totWeight)
 		rndBig, err := rand.Int(hkdfReader, totWeightBig)
